@@ -891,31 +891,19 @@ def translate_guards(src_root):
 
 
 # ================================================================================================ shift_double_ended
-def translate_shift(src_root):
-    """`shift_double_ended`: the slices taken from the forward-type arrays (st, ast, x) and the backward-type arrays (rst, rast)
-    in both branches, proved to be `Shift.shift` (Python slice semantics = `Py.pySlice`, trusted rule)"""
-    tree = ast.parse((Path(src_root) / "dtscalibration" / "dts_accessor_utils.py").read_text())
-    fn = None
-    for node in ast.walk(tree):
-        if isinstance(node, ast.FunctionDef) and node.name == "shift_double_ended":
-            fn = node
-    if fn is None:
-        raise Untranslatable("shift_double_ended not found")
+def _shift_slices(fn, body, where):
+    """the four slice pairs of an `if i_shift < 0: ... else: ...` found among the statements `body` of function `fn`"""
     env = {}
     branch = None
-    for st in fn.body:
+    for st in body:
         if isinstance(st, ast.Assign) and len(st.targets) == 1 and isinstance(st.targets[0], ast.Name) and st.targets[0].id in ("nx", "nx2"):
             env[st.targets[0].id] = st.value
         if isinstance(st, ast.If) and ast.unparse(st.test) == "i_shift < 0":
             branch = st
             break
-    if branch is None or ast.unparse(env.get("nx", ast.Constant(0))) != "ds.x.size":
-        raise Untranslatable("shift_double_ended: `nx = ds.x.size` / `if i_shift < 0` not found")
-
-    def bound(n):
-        if n is None:
-            return "none"
-        return f"(some {iexpr(n)})"
+    nxsrc = ast.unparse(env.get("nx", ast.Constant(0))).replace("'", '"')
+    if branch is None or nxsrc not in ("ds.x.size", 'ds["x"].size'):
+        raise Untranslatable(f"{where}: `nx = ds.x.size` / `if i_shift < 0` not found")
 
     def iexpr(n):
         if isinstance(n, ast.Name) and n.id == "i_shift":
@@ -928,40 +916,72 @@ def translate_shift(src_root):
             return f"(-{iexpr(n.operand)})"
         if isinstance(n, ast.BinOp) and isinstance(n.op, (ast.Sub, ast.Add)):
             return f"({iexpr(n.left)} {'-' if isinstance(n.op, ast.Sub) else '+'} {iexpr(n.right)})"
-        raise Untranslatable(f"shift_double_ended: slice bound outside the fragment: {ast.unparse(n)}")
+        raise Untranslatable(f"{where}: slice bound outside the fragment: {ast.unparse(n)}")
 
-    def slices(body):
+    def bound(n):
+        return "none" if n is None else f"(some {iexpr(n)})"
+
+    def slices(stmts):
         got = {}
-        for st in body:
+        for st in stmts:
             if not (isinstance(st, ast.Assign) and len(st.targets) == 1 and isinstance(st.targets[0], ast.Name)):
-                raise Untranslatable(f"shift_double_ended: statement outside the fragment: {ast.unparse(st)[:60]}")
+                raise Untranslatable(f"{where}: statement outside the fragment: {ast.unparse(st)[:60]}")
             v = st.value
             if not (isinstance(v, ast.Subscript) and isinstance(v.slice, ast.Slice) and v.slice.step is None):
-                raise Untranslatable(f"shift_double_ended: not a plain slice: {ast.unparse(v)[:60]}")
+                raise Untranslatable(f"{where}: not a plain slice: {ast.unparse(v)[:60]}")
             base = ast.unparse(v.value).replace("'", '"')
             name = st.targets[0].id
             src_name = {"st": "st", "ast": "ast", "rst": "rst", "rast": "rast", "x2": "x"}.get(name)
             if src_name is None or base not in (f"ds.{src_name}.data", f'ds["{src_name}"].data'):
-                raise Untranslatable(f"shift_double_ended: `{name}` is sliced from `{base}`")
+                raise Untranslatable(f"{where}: `{name}` is sliced from `{base}`")
             got[name] = (bound(v.slice.lower), bound(v.slice.upper))
         if sorted(got) != ["ast", "rast", "rst", "st", "x2"]:
-            raise Untranslatable(f"shift_double_ended: slices found for {sorted(got)}")
+            raise Untranslatable(f"{where}: slices found for {sorted(got)}")
         if not (got["st"] == got["ast"] == got["x2"]) or got["rst"] != got["rast"]:
-            raise Untranslatable(f"shift_double_ended: arrays of one direction are sliced differently: {got}")
+            raise Untranslatable(f"{where}: arrays of one direction are sliced differently: {got}")
         return got["st"], got["rst"]
 
-    (fn_lo, fn_hi), (bn_lo, bn_hi) = slices(branch.body)
-    (fp_lo, fp_hi), (bp_lo, bp_hi) = slices(branch.orelse)
-    # the new data set is assembled from exactly these
+    return slices(branch.body), slices(branch.orelse)
+
+
+def translate_shift(src_root):
+    """`shift_double_ended` and the candidate loop of `suggest_cable_shift_double_ended`: the slices taken from the forward-type
+    arrays (st, ast, x) and the backward-type arrays (rst, rast) in both branches, proved to be `Shift.shift` (Python slice
+    semantics = `Py.pySlice`, trusted rule); the objective's ingredients of the suggestion are checked structurally"""
+    tree = ast.parse((Path(src_root) / "dtscalibration" / "dts_accessor_utils.py").read_text())
+    fns = {node.name: node for node in ast.walk(tree) if isinstance(node, ast.FunctionDef)}
+    for need in ("shift_double_ended", "suggest_cable_shift_double_ended"):
+        if need not in fns:
+            raise Untranslatable(f"{need} not found")
+    L = ["\nnamespace DtsVerif.GenShift\nopen DtsVerif.Py DtsVerif.Shift\n"]
+    fn = fns["shift_double_ended"]
     src = ast.unparse(fn).replace("'", '"')
     if 'new_data = (("st", st), ("ast", ast), ("rst", rst), ("rast", rast))' not in src or 'd2_coords["x"] = xr.DataArray(data=x2' not in src:
         raise Untranslatable("shift_double_ended: the result is no longer assembled from st, ast, rst, rast, x2")
-    L = ["\nnamespace DtsVerif.GenShift\nopen DtsVerif.Py DtsVerif.Shift\n",
-         "def shiftG {α} (fwd bwd : List α) (i : Int) : List α × List α :=",
-         f"  if i < 0 then (pySlice fwd {fn_lo} {fn_hi}, pySlice bwd {bn_lo} {bn_hi})",
-         f"  else (pySlice fwd {fp_lo} {fp_hi}, pySlice bwd {bp_lo} {bp_hi})",
-         "theorem shiftG_eq {α} (fwd bwd : List α) (i : Int) : shiftG fwd bwd i = shift fwd bwd i := by\n  unfold shiftG shift\n  split <;> rfl",
-         "\nend DtsVerif.GenShift"]
+    sg = fns["suggest_cable_shift_double_ended"]
+    loops = [st for st in sg.body if isinstance(st, ast.For)]
+    if len(loops) != 1 or ast.unparse(loops[0].iter) != "irange":
+        raise Untranslatable("suggest_cable_shift_double_ended: the loop over irange not found")
+    body = [st for st in loops[0].body]
+    if not (isinstance(body[0], ast.Assign) and ast.unparse(body[0]) == "i_shift = int(shift)" and ast.unparse(loops[0].target) == "shift"):
+        raise Untranslatable("suggest_cable_shift_double_ended: `i_shift = int(shift)` not found")
+    for tag, f, stmts in (("shift", fn, fn.body), ("suggest", sg, body)):
+        ((fn_lo, fn_hi), (bn_lo, bn_hi)), ((fp_lo, fp_hi), (bp_lo, bp_hi)) = _shift_slices(f, stmts, f.name)
+        L += [f"def {tag}G {{α}} (fwd bwd : List α) (i : Int) : List α × List α :=",
+              f"  if i < 0 then (pySlice fwd {fn_lo} {fn_hi}, pySlice bwd {bn_lo} {bn_hi})",
+              f"  else (pySlice fwd {fp_lo} {fp_hi}, pySlice bwd {bp_lo} {bp_hi})",
+              f"theorem {tag}G_eq {{α}} (fwd bwd : List α) (i : Int) : {tag}G fwd bwd i = shift fwd bwd i := by\n  unfold {tag}G shift\n  split <;> rfl"]
+    # the ingredients of the two objectives, as the model has them
+    ssrc = ast.unparse(sg).replace("'", '"')
+    for piece in ("att = (i_b - i_f) / 2", "i_f = np.log(st / ast)", "i_b = np.log(rst / rast)",
+                  "att_dif1 = np.diff(att, n=1, axis=0)", "att_x_dif1 = 0.5 * x2[1:] + 0.5 * x2[:-1]",
+                  "err1_mask = np.logical_and(att_x_dif1 > 1.0, att_x_dif1 < 150.0)", "err1.append(np.nansum(np.abs(att_dif1[err1_mask])))",
+                  "att_dif2 = np.diff(att, n=2, axis=0)", "att_x_dif2 = x2[1:-1]",
+                  "err2_mask = np.logical_and(att_x_dif2 > 1.0, att_x_dif2 < 150.0)", "err2.append(np.nansum(np.abs(att_dif2[err2_mask])))",
+                  "ishift1 = int(irange[np.argmin(err1, axis=0)])", "ishift2 = int(irange[np.argmin(err2, axis=0)])"):
+        if piece not in ssrc:
+            raise Untranslatable(f"suggest_cable_shift_double_ended: `{piece}` is gone")
+    L.append("\nend DtsVerif.GenShift")
     return "\n".join(L) + "\n"
 
 
